@@ -238,3 +238,35 @@ func FuzzC07(f *testing.F) {
 		}
 	})
 }
+
+// FuzzC04: scans on pooled Complete tries; start/end strings and flags from the fuzzer.
+func FuzzC04(f *testing.F) {
+	pc, _ := pools()
+	for i, p := range pc {
+		for j, x := range queries(p.m.AllKeys, p.c.Win, nil, false) {
+			if j%90 == 0 {
+				f.Add(uint16(i), []byte(x), []byte(x+"\xff"), uint8(j))
+			}
+		}
+	}
+	f.Fuzz(func(t *testing.T, idx uint16, start, end []byte, flags uint8) {
+		p := pc[int(idx)%len(pc)]
+		sc := ScanSpec{API: []string{"from", "fromto", "iter"}[int(flags>>5)%3], Start: Hex(start), InclStart: flags&1 == 1,
+			End: Hex(end), InclEnd: flags&2 == 2, WithValue: flags&4 == 4, Stop: -1}
+		if flags&8 == 8 {
+			sc.Stop = int(flags>>4) & 1
+		}
+		out, calls, exOK, pv := runScan(p.st, &sc)
+		var err error
+		if pv != nil {
+			err = viol("panic", "scan %+v on a Complete trie panicked: %v", sc, pv)
+		} else {
+			err = compareScan(p.c, p.m, &sc, out, calls, exOK)
+		}
+		if err != nil {
+			cc := *p.c
+			cc.Prop, cc.Scans = "C04", []ScanSpec{sc}
+			fuzzFail(t, "C04", &cc, err)
+		}
+	})
+}
